@@ -628,6 +628,8 @@ func vC14Keys(r *rand.Rand, thorough bool) []*vC14SigKey {
 		{"p512b", "p512c", bi("18446744073709551629"), []uint8{8}, "rsa1024-e-65bit", 0, false},
 		{"p512a", "p512b", bi("65537"), []uint8{8}, "rsa1024-e65537-3octet-length", 1, true},
 		{"p511", "p512a", bi("65537"), []uint8{8}, "rsa-below-1024", 0, false},
+		{"p511", "p512a", bi("4294967297"), []uint8{8, 10}, "rsa-below-1024-wide", 0, false},
+		{"p511", "p512b", bi("18446744073709551557"), []uint8{5}, "rsa-below-1024-wide", 0, false},
 		{"p513", "p512a", bi("65537"), []uint8{8}, "rsa1025", 1, false},
 		{"p1024a", "p1024b", bi("65537"), []uint8{8, 10}, "rsa2048-e65537", 2, false},
 		{"p2049", "p2048a", bi("65537"), []uint8{8}, "rsa-above-4096", 0, false},
@@ -736,9 +738,30 @@ func (s *vC14Scn) resign() bool {
 func vC14Perturb(r *rand.Rand, s *vC14Scn, keys []*vC14SigKey) string {
 	sgRaw, _ := base64.StdEncoding.DecodeString(s.sig.Signature)
 	setSig := func(b []byte) { s.sig.Signature = base64.StdEncoding.EncodeToString(b) }
-	switch r.Intn(37) {
+	switch r.Intn(40) {
 	case 0, 1, 2, 3, 4, 5:
 		return "valid"
+	case 37, 38, 39: // key material of another size: at and around every width an algorithm
+		// or a fixed buffer could care about, far beyond it now and then; the rest of the
+		// record (tag, owner, algorithm, signature width) stays consistent so that only the
+		// verifier's own handling of the material decides
+		sizes := []int{0, 1, 2, 31, 32, 33, 63, 64, 65, 95, 96, 97, 98, 127, 128, 129, 130, 192, 200, 256, 257, 513}
+		n := sizes[r.Intn(len(sizes))]
+		if r.Intn(12) == 0 {
+			n = []int{1024, 4091, 4092, 4093}[r.Intn(4)]
+		}
+		raw, _ := base64.StdEncoding.DecodeString(s.k.PublicKey)
+		nb := make([]byte, n)
+		copy(nb, raw)
+		for i := len(raw); i < n; i++ {
+			nb[i] = byte(r.Intn(256))
+		}
+		s.k.PublicKey = base64.StdEncoding.EncodeToString(nb)
+		tag, pan := vC14LibKeyTag(s.k)
+		if !pan {
+			s.sig.KeyTag = tag
+		}
+		return "key-material-resized"
 	case 34: // the key's class alone: not part of the tag nor of the signed data, only the binding sees it
 		s.k.Hdr.Class = []uint16{dns.ClassCHAOS, dns.ClassHESIOD, 0}[r.Intn(3)]
 		return "key-class-changed"
@@ -1018,6 +1041,10 @@ func TestVerifC14Sig(t *testing.T) {
 	every := max(1, n/(len(keys)+1))
 	next := 0
 	for c := 0; c < n; c++ {
+		if c == n/3 || c == 2*n/3 {
+			vC14CaseConcurrent(tr, r, cheap, keys)
+			continue
+		}
 		if c%every == every/2 && next < len(keys) {
 			vC14CaseShowcase(tr, r, keys[next])
 			next++
@@ -1079,6 +1106,12 @@ func vC14Probes(tr *vC14Trace, r *rand.Rand, keys []*vC14SigKey) {
 
 // ---- rrsigSignedData
 
+// the slice the previous call returned (not a copy) and its contents at that time
+var (
+	vC14HeldSigned []byte
+	vC14HeldCopy   string
+)
+
 func vC14CaseSigned(tr *vC14Trace, r *rand.Rand, keys []*vC14SigKey) {
 	s := vC14NewScn(r, keys[r.Intn(len(keys))])
 	shape := "signer-produced"
@@ -1106,6 +1139,11 @@ func vC14CaseSigned(tr *vC14Trace, r *rand.Rand, keys []*vC14SigKey) {
 	if p := vC14Guard(func() { got, err = rrsigSignedData(s.sig, set) }); p != "" {
 		fail = "rrsigSignedData panicked: " + p
 	}
+	// what a call returned belongs to its caller: it must not change while later calls run
+	if vC14HeldSigned != nil && string(vC14HeldSigned) != vC14HeldCopy {
+		fail = "the signed data returned by the previous call to rrsigSignedData changed during this call (the result aliases state that later calls write)"
+	}
+	vC14HeldSigned, vC14HeldCopy = got, string(got)
 	lib, libOK := vC14LibSigned(s.sig, set)
 	if fail == "" {
 		switch {
@@ -1199,7 +1237,7 @@ func vC14EmitVerify(tr *vC14Trace, key *vC14SigKey, s *vC14Scn, what string) {
 			fail = fmt.Sprintf("cryptoVerify accepted (%s, %s) and the reference (library / math/big) rejects", key.label, what)
 		case eq && (err == nil) != libok:
 			fail = fmt.Sprintf("cryptoVerify accept=%v, dns.RRSIG.Verify accept=%v on an input outside the documented differences (%s, %s)", err == nil, libok, key.label, what)
-		case s.signedOK && strings.HasPrefix(what, "valid") && key.label != "rsa-below-1024" && !strings.HasPrefix(key.label, "rsa-above-4096") && key.label != "rsa1024-e-65bit" &&
+		case s.signedOK && strings.HasPrefix(what, "valid") && !strings.HasPrefix(key.label, "rsa-below-1024") && !strings.HasPrefix(key.label, "rsa-above-4096") && key.label != "rsa1024-e-65bit" &&
 			!strings.HasPrefix(key.label, "rsa-even-modulus") && err != nil:
 			fail = fmt.Sprintf("cryptoVerify rejected a correctly signed RRset (%s, %s): %v", key.label, what, err)
 		}
@@ -1220,6 +1258,83 @@ func vC14EmitVerify(tr *vC14Trace, key *vC14SigKey, s *vC14Scn, what string) {
 		vC14Bool(libok), vC14Bool(refok), vC14Bool(eq)), fail, true,
 		map[string]any{"key": key.label, "what": what, "notes": s.notes, "owner": set[0].Header().Name, "type": s.set[0].kind, "records": len(set),
 			"sdns": fmt.Sprint(err), "lib_accepts": libok, "reference_accepts": refok, "equal_domain": eq})
+}
+
+// ---- concurrent callers
+
+// vC14CaseConcurrent runs cryptoVerify and rrsigSignedData on a fixed set of
+// inputs from several goroutines at once and compares every result with the
+// one the same input gave when it ran alone.  The functions are specified as
+// pure; a result that depends on what else is running is a wrong verdict for
+// some caller.  (On correct code this cannot fail; which call fails on broken
+// code depends on the schedule, so the first few are reported as found.)
+func vC14CaseConcurrent(tr *vC14Trace, r *rand.Rand, cheap []*vC14SigKey, keys []*vC14SigKey) {
+	type item struct {
+		s      *vC14Scn
+		set    []dns.RR
+		code   int
+		signed string
+		what   string
+	}
+	var items []item
+	for i := 0; i < 48; i++ {
+		s := vC14NewScn(r, cheap[r.Intn(len(cheap))])
+		what := vC14Perturb(r, s, keys)
+		set := vC14RRs(s.set)
+		it := item{s: s, set: set, what: what, code: -1}
+		if p := vC14Guard(func() {
+			it.code = vC14ErrCode(cryptoVerify(s.k, s.sig, set))
+			if b, err := rrsigSignedData(s.sig, set); err == nil {
+				it.signed = string(b)
+			}
+		}); p != "" {
+			continue
+		}
+		items = append(items, it)
+	}
+	const workers, rounds = 8, 12
+	fails := make([][]string, workers)
+	done := make(chan int, workers)
+	for w := 0; w < workers; w++ {
+		go func(w int) {
+			defer func() { done <- w }()
+			for round := 0; round < rounds; round++ {
+				for j := range items {
+					it := items[(j*7+w*5+round)%len(items)]
+					var code int
+					var b []byte
+					var err error
+					if p := vC14Guard(func() {
+						b, err = rrsigSignedData(it.s.sig, it.set)
+						code = vC14ErrCode(cryptoVerify(it.s.k, it.s.sig, it.set))
+					}); p != "" {
+						fails[w] = append(fails[w], "panic under concurrency: "+p)
+						continue
+					}
+					if code != it.code {
+						fails[w] = append(fails[w], fmt.Sprintf("cryptoVerify gave code %d alone and %d next to other callers (%s, %s)", it.code, code, it.s.key.label, it.what))
+					}
+					if err == nil && string(b) != it.signed {
+						fails[w] = append(fails[w], fmt.Sprintf("rrsigSignedData returned other octets next to other callers than alone (%s)", it.what))
+					}
+				}
+			}
+		}(w)
+	}
+	for w := 0; w < workers; w++ {
+		<-done
+	}
+	fail, total := "", 0
+	for _, f := range fails {
+		total += len(f)
+		if fail == "" && len(f) > 0 {
+			fail = f[0]
+		}
+	}
+	if total > 1 {
+		fail += fmt.Sprintf(" (+%d more)", total-1)
+	}
+	tr.emit("concurrent-callers", "", fail, true, map[string]any{"inputs": len(items), "workers": workers, "rounds": rounds, "disagreements": total})
 }
 
 // ---- verifyOneSig
